@@ -49,7 +49,7 @@ def overlap_inputs():
     return out[:60]
 
 
-def worker(outfile, tier, part, nparts):
+def worker(outfile, tier, part, nparts, reverse=False):
     """runs in a fresh interpreter whose hash seed is fixed by the environment"""
     sys.path[:0] = [VERIF, REPO]
     from symtex import session, cond, runtime as R, explore as X
@@ -58,9 +58,10 @@ def worker(outfile, tier, part, nparts):
     R.ST.active = 'C17'
     out = {}
     stats0 = R.ST.stats.as_dict()
-    for ji, (fname, args, nv) in enumerate(jobs(tier)):
-        if ji % nparts != part:
-            continue
+    todo = [(ji, j) for ji, j in enumerate(jobs(tier)) if ji % nparts == part]
+    if reverse:
+        todo.reverse()          # the same jobs in the opposite order: state leaking between parses shows as a difference
+    for ji, (fname, args, nv) in todo:
         fn = getattr(sym, fname)
         res = X.explore(lambda: fn(*args), want_witness=False)
         if not res.complete or any(p.status not in ('ok', 'abort') for p in res.paths):
@@ -81,6 +82,20 @@ def native_outcome(text, seed):
     return r.stdout.strip()
 
 
+def native_outcome_after_others(text, tier):
+    """the same parse in a fresh interpreter, but after the concrete inputs of the job list have been parsed"""
+    others = [a[0] for f, a, _ in jobs(tier) if f == 'c17_const'] + ['\\right\\|', '\\left\\lvert x', '\\big\\x', '\\Bigg\\\\']
+    code = ('import sys; sys.path.insert(0, %r); from TexSoup import TexSoup\n'
+            'for o in %r:\n'
+            '    try: TexSoup(o)\n'
+            '    except Exception: pass\n'
+            'try:\n    s = TexSoup(%r); print(repr(("ok", str(s), repr(s.expr))))\n'
+            'except Exception as e:\n    print(repr(("exc", type(e).__name__)))\n') % (REPO, others, text)
+    r = subprocess.run(['/venv/bin/python', '-c', code], env=dict(os.environ, PYTHONHASHSEED='0'),
+                       capture_output=True, text=True, timeout=120)
+    return r.stdout.strip()
+
+
 def post(tier, seed, log):
     from symtex import partition, cond
     t0 = time.time()
@@ -88,12 +103,13 @@ def post(tier, seed, log):
     nparts = 3 if tier == 'quick' else 1
     tmp = tempfile.mkdtemp(prefix='c17seeds_', dir=os.path.join(VERIF, '.cache') if os.path.isdir(os.path.join(VERIF, '.cache')) else None)
     procs = []
-    for s in seeds:
+    REV = -1        # pseudo seed: hash seed 0, jobs in reversed order
+    for s in seeds + [REV]:
         for part in range(nparts):
             out = os.path.join(tmp, 'seed%d_%d.pkl' % (s, part))
-            env = dict(os.environ, PYTHONHASHSEED=str(s))
+            env = dict(os.environ, PYTHONHASHSEED=str(max(s, 0)))
             p = subprocess.Popen([sys.executable, '-c',
-                                  'import sys; sys.path.insert(0, %r); from vt import seeds; seeds.worker(%r, %r, %d, %d)' % (VERIF, out, tier, part, nparts)],
+                                  'import sys; sys.path.insert(0, %r); from vt import seeds; seeds.worker(%r, %r, %d, %d, %r)' % (VERIF, out, tier, part, nparts, s == REV)],
                                  env=env, cwd=VERIF)
             procs.append((s, part, out, p))
     problems, viols = [], []
@@ -123,7 +139,7 @@ def post(tier, seed, log):
     paths = 0
     samples = []
     if 0 in runs:
-        for s in seeds[1:]:
+        for s in seeds[1:] + [REV]:
             if s not in runs:
                 continue
             for ji, (fname, args, nv) in zip(jix, js):
@@ -159,14 +175,14 @@ def post(tier, seed, log):
             continue
         seen.add(text)
         n0 = native_outcome(text, 0)
-        n1 = native_outcome(text, s)
+        n1 = native_outcome(text, s) if s >= 0 else native_outcome_after_others(text, tier)
         if n0 != n1:
             out_v.append({'label': 'C17:hash-seed-dependence', 'vals': [ord(c) for c in text],
-                          'detail': {'sig': 'sizing-delimiter-overlap' if '.|' in text else 'other', 'input': text, 'seeds': [0, s], 'seed0': n0[:300], 'seedN': n1[:300]},
+                          'detail': {'sig': 'sizing-delimiter-overlap' if '.|' in text else ('parse-order-dependence' if s < 0 else 'other'), 'input': text, 'seeds': [0, s], 'seed0': n0[:300], 'seedN': n1[:300]},
                           'unit': ('isolation.py', 'native_seed_compare', (text, s), None)})
         else:
             problems.append('hash-seed difference for %r (seeds 0/%d) did not reproduce natively' % (text, s))
-    ev = {'hash_seeds': seeds, 'hash_seed_jobs': len(js), 'partition_queries': queries, 'partition_cells_identical': partition.SYNTACTIC[0], 'hash_seed_paths': paths,
+    ev = {'hash_seeds': seeds, 'job_orders': 'seed 0 explored in forward and in reversed job order (fresh interpreters), compared by partition equivalence', 'hash_seed_jobs': len(js), 'partition_queries': queries, 'partition_cells_identical': partition.SYNTACTIC[0], 'hash_seed_paths': paths,
           'hash_seed_solver_calls': stats.get('solver_calls', 0), 'hash_seed_wall_s': round(time.time() - t0, 1),
           'hash_seed_samples': samples}
     return {'violations': out_v, 'problems': problems, 'evidence': ev, 'paths': paths, 'decisions': stats.get('decisions', 0),
